@@ -1566,9 +1566,15 @@ class Sim:
             # a unit header that was added to the tree since the previous invocation
             from . import addedunit as _au
 
-            for relname, text in _au.FILES.items():
+            for relname, text in _au.files(env["added_unit"]).items():
                 ap = os.path.join(self.repo, "au/code", relname)
-                self.overlay.inodes.setdefault(ap, _Inode(text.encode("utf-8")))
+                node = self.overlay.inodes.get(ap)
+                if node is None or bytes(node.data) != text.encode("utf-8"):
+                    # new, or replaced by another revision since the previous invocation - with
+                    # the time stamp the plan says (tar x / cp -p / rsync -a keep the file's own
+                    # time, which may be older than or equal to what was there before)
+                    node = self.overlay.inodes[ap] = _Inode(text.encode("utf-8"))
+                    node.mtime = _au.mtime_of(env["added_unit"])
                 self.overlay.removed.discard(ap)
         if sel.get("user_main"):
             # the user's own header, planted in the simulated file system and given as a main file
